@@ -18,6 +18,17 @@ pub const VERIF_DIR: &str = "/verif";
 // panic capture (worker side)
 
 static LAST_PANIC: Mutex<Option<PanicInfo>> = Mutex::new(None);
+static WORKER_OUT: Mutex<Option<(fs::File, u64)>> = Mutex::new(None);
+
+/// called by a case function once it knows how big its case is: raises the CPU budget of
+/// the current case (the parent reads the record from the worker's log)
+pub fn announce_cpu_budget(cpu_s: f64) {
+    let mut g = WORKER_OUT.lock().unwrap_or_else(|e| e.into_inner());
+    if let Some((f, case)) = g.as_mut() {
+        let _ = writeln!(f, "{}", json!({"t": "budget", "case": *case, "cpu_s": cpu_s}));
+        let _ = f.flush();
+    }
+}
 
 #[derive(Clone, Debug)]
 pub struct PanicInfo {
@@ -176,6 +187,10 @@ pub fn worker_main(args: &[String], case_fn: CaseFn) {
     while idx < end {
         writeln!(out, "{}", json!({"t": "begin", "case": idx})).unwrap();
         out.flush().unwrap();
+        {
+            let mut g = WORKER_OUT.lock().unwrap_or_else(|e| e.into_inner());
+            *g = Some((out.try_clone().expect("clone outfile"), idx));
+        }
         let t0 = Instant::now();
         let res = guard(|| case_fn(&ctx, idx));
         let ms = t0.elapsed().as_millis() as u64;
@@ -251,6 +266,7 @@ struct W {
     step: u64,
     end: u64,
     current: Option<(u64, f64, Instant)>, // case, cpu at begin, wall at begin
+    budget: f64,
     last_case_done: Option<u64>,
     first: u64,
     done: bool,
@@ -427,6 +443,7 @@ pub fn run(spec: &RunSpec) -> i32 {
                 step: n as u64,
                 end: spec.cases,
                 current: None,
+                budget: spec.cpu_budget_s,
                 last_case_done: None,
                 first: k as u64,
                 done: false,
@@ -463,6 +480,10 @@ pub fn run(spec: &RunSpec) -> i32 {
                     Some("begin") => {
                         let cpu = cpu_seconds(w.child.id()).unwrap_or(0.0);
                         w.current = Some((v["case"].as_u64().unwrap(), cpu, Instant::now()));
+                        w.budget = spec.cpu_budget_s;
+                    }
+                    Some("budget") => {
+                        w.budget = v["cpu_s"].as_f64().unwrap_or(spec.cpu_budget_s).max(spec.cpu_budget_s);
                     }
                     Some("end") => {
                         w.current = None;
@@ -508,10 +529,23 @@ pub fn run(spec: &RunSpec) -> i32 {
             // CPU budget
             if let Some((case, cpu0, wall0)) = w.current {
                 let cpu = cpu_seconds(w.child.id()).unwrap_or(cpu0);
-                if cpu - cpu0 > spec.cpu_budget_s {
+                if cpu - cpu0 > w.budget {
                     let bt1 = gdb_backtrace(w.child.id());
                     std::thread::sleep(Duration::from_millis(1500));
                     let bt2 = gdb_backtrace(w.child.id());
+                    // the case may have finished while we were looking: then it was only slow
+                    let finished = fs::read_to_string(&w.outfile)
+                        .map(|all| {
+                            all.lines().any(|l| {
+                                serde_json::from_str::<Value>(l)
+                                    .map(|v| v["t"] == "end" && v["case"].as_u64() == Some(case))
+                                    .unwrap_or(false)
+                            })
+                        })
+                        .unwrap_or(false);
+                    if finished {
+                        continue;
+                    }
                     let _ = w.child.kill();
                     let _ = w.child.wait();
                     let site = spin_site(&bt2);
@@ -525,7 +559,7 @@ pub fn run(spec: &RunSpec) -> i32 {
                         &format!(
                             "consumed {:.1} CPU-s (budget {}), wall {:.1}s; same spin site in both samples: {}\n--- backtrace 1\n{}\n--- backtrace 2\n{}",
                             cpu - cpu0,
-                            spec.cpu_budget_s,
+                            w.budget,
                             wall0.elapsed().as_secs_f64(),
                             same,
                             bt1,
